@@ -15,7 +15,7 @@ Proof. intros Hx Hy. unfold umulExtended. change (2 ^ 32) with 4294967296 in *. 
 Lemma imulExtended_correct x y : - 2 ^ 31 <= x < 2 ^ 31 -> - 2 ^ 31 <= y < 2 ^ 31 ->
   let '(m, l) := imulExtended x y in m * 2 ^ 32 + l mod 2 ^ 32 = x * y /\ - 2 ^ 31 <= l < 2 ^ 31 /\ - 2 ^ 31 <= m < 2 ^ 31.
 Proof.
-  intros Hx Hy. unfold imulExtended, norm. change (true && ?b) with b. change (2 ^ 32) with 4294967296 in *. change (2 ^ 31) with 2147483648 in *. change (2 ^ (32 - 1)) with 2147483648.
+  intros Hx Hy. unfold imulExtended. rewrite !norm_mod by lia. cbv zeta. change (true && ?b) with b. change (2 ^ 32) with 4294967296 in *. change (2 ^ 31) with 2147483648 in *. change (2 ^ (32 - 1)) with 2147483648.
   assert (Hv : - (2147483648 * 2147483648) <= x * y <= 2147483648 * 2147483648) by nia.
   set (v := x * y) in *. clearbody v.
   destruct (2147483648 <=? (v / 4294967296) mod 4294967296) eqn:E1; destruct (2147483648 <=? v mod 4294967296) eqn:E2;
@@ -38,16 +38,16 @@ Proof. intros Hn. replace (2 ^ n - 1) with (Z.ones n) by (rewrite Z.ones_equiv; 
 Lemma bitfieldExtract_unsigned w v off bits : (w = 8 \/ w = 16 \/ w = 32 \/ w = 64) -> 0 <= v < 2 ^ w -> 0 <= off -> 0 <= bits < 32 -> off + bits <= w ->
   bitfieldExtract false w v off bits = extract_spec false w v off bits.
 Proof.
-  intros Hw Hv Ho Hb Hob. unfold bitfieldExtract, extract_spec, band, shr, umod. cbn [andb].
+  intros Hw Hv Ho Hb Hob. unfold bitfieldExtract, extract_spec, band, shr. rewrite !umod_mod by lia. cbn [andb]. rewrite Z.shiftr_div_pow2 by lia.
   assert (Hmask : mask_int bits = 2 ^ bits - 1).
-  { unfold mask_int. replace (32 <=? bits) with false by (symmetry; apply Z.leb_gt; lia). unfold norm. cbn [andb].
+  { unfold mask_int. replace (32 <=? bits) with false by (symmetry; apply Z.leb_gt; lia). rewrite norm_mod by lia. cbv zeta. cbn [andb].
     assert (0 < 2 ^ bits <= 2 ^ 31) by (split; [apply Z.pow_pos_nonneg; lia | apply Z.pow_le_mono_r; lia]).
     change (2 ^ 32) with 4294967296. change (2 ^ (32 - 1)) with 2147483648. change (2 ^ 31) with 2147483648 in H.
     rewrite Z.mod_small by lia. replace (2147483648 <=? 2 ^ bits - 1) with false by (symmetry; apply Z.leb_gt; lia). reflexivity. }
   rewrite Hmask. assert (Hpw : 0 < 2 ^ w) by (apply Z.pow_pos_nonneg; lia). assert (Hpb : 0 < 2 ^ bits <= 2 ^ w) by (split; [apply Z.pow_pos_nonneg; lia | apply Z.pow_le_mono_r; lia]).
-  unfold norm at 2. cbn [andb]. rewrite (Z.mod_small (2 ^ bits - 1)) by lia.
+  rewrite (Z.mod_small (2 ^ bits - 1)) by lia.
   rewrite land_ones_pow by lia. rewrite (Z.mod_small v) by lia.
-  unfold norm. cbn [andb]. assert (0 <= (v / 2 ^ off) mod 2 ^ bits < 2 ^ bits) by (apply Z.mod_pos_bound; lia). rewrite Z.mod_small by lia. reflexivity.
+  assert (0 <= (v / 2 ^ off) mod 2 ^ bits < 2 ^ bits) by (apply Z.mod_pos_bound; lia). rewrite Z.mod_small by lia. reflexivity.
 Qed.
 (* known findings (refuted statements with witnesses) *)
 Lemma bitfieldExtract_signed_refuted : exists v off bits, in_T true 32 v = true /\ 0 <= off /\ 0 <= bits /\ off + bits <= 32 /\ bitfieldExtract true 32 v off bits <> extract_spec true 32 v off bits.
